@@ -44,10 +44,36 @@ fn coords(v: Option<MatrixCoordinates>) -> Value {
 }
 
 /// one table, one backend: max / argmax / threshold through the pipeline traits
+thread_local! {
+    static REUSE_TOGGLE: std::cell::Cell<usize> = const { std::cell::Cell::new(0) };
+}
+
+/// Fill `s` in place (resize + overwrite): a reused buffer that previously held another (often larger) table.
+fn refill<T: Cell, C: PositiveLength>(s: &mut StripedScores<T, C>, t: &[Vec<i64>]) {
+    s.resize(t.len(), t.len() * C::USIZE);
+    for (i, row) in t.iter().enumerate() {
+        for (j, &k) in row.iter().enumerate() {
+            s.matrix_mut()[i][j] = T::from_k(k);
+        }
+    }
+}
+
 fn run<T: Cell, C: PositiveLength, P: Maximum<T, C> + Threshold<T, C>>(
     rec: &mut Recorder, pli: &P, be: &str, arm: Option<Arm>, t: &[Vec<i64>], thr: i64, class: &str,
 ) {
-    let s = build::<T, C>(t, t.len() * C::USIZE);
+    // every other table goes into a buffer that first held a larger table with larger values
+    let n = REUSE_TOGGLE.with(|c| { c.set(c.get() + 1); c.get() });
+    let reused = n % 2 == 0;
+    let s = if reused {
+        let top = if T::ELEM == "f32" { 200 } else { 255 };
+        let big: Vec<Vec<i64>> = (0..t.len() + 1 + n % 5).map(|_| vec![top; C::USIZE]).collect();
+        let mut s = build::<T, C>(&big, big.len() * C::USIZE);
+        refill::<T, C>(&mut s, t);
+        s
+    } else {
+        build::<T, C>(t, t.len() * C::USIZE)
+    };
+    if reused { rec.class("reused_buffer"); }
     let r = guarded(|| {
         let mx = Maximum::<T, C>::max(pli, &s);
         let am = Maximum::<T, C>::argmax(pli, &s);
@@ -55,7 +81,7 @@ fn run<T: Cell, C: PositiveLength, P: Maximum<T, C> + Threshold<T, C>>(
         (mx, am, th)
     });
     rec.reset();
-    let mut o = json!({"ev":"reduce","be":be,"arm":arm_name(arm),"elem":T::ELEM,"C":C::USIZE,"api":"pipeline","rows":t,"thr":thr});
+    let mut o = json!({"ev":"reduce","be":be,"arm":arm_name(arm),"elem":T::ELEM,"C":C::USIZE,"api":"pipeline","rows":t,"thr":thr,"reused":reused});
     let m = o.as_object_mut().unwrap();
     match r {
         Ok((mx, am, th)) => {
